@@ -149,6 +149,8 @@ func (v VD) Go() any {
 		return buildERoot(v)
 	case "page":
 		return buildPage(v)
+	case "ort":
+		return buildOrt(v)
 	case "mapsls", "mapsla", "mapsm", "mapsli", "mapsp":
 		return buildTypedMap(v)
 	case "mapaa", "mapas", "mapns":
